@@ -14,11 +14,11 @@ import (
 type c18Case struct {
 	Text      bool   `json:"text"`
 	Init      bool   `json:"init"`
-	Wills     int    `json:"wills"`     // 0..3 registered will commands
-	Cause     string `json:"cause"`     // client-close | protocol-error | client-kill
-	CloseAt   string `json:"closeat"`   // before-grant | at-timeout-tick | after-timeout
+	Wills     int    `json:"wills"`           // 0..3 registered will commands
+	Cause     string `json:"cause"`           // client-close | protocol-error | client-kill
+	CloseAt   string `json:"closeat"`         // before-grant | at-timeout-tick | after-timeout
 	SelfQueue bool   `json:"selfq,omitempty"` // the victim also leaves a request queued behind its OWN hold on key 1 (granted by its will unlock)
-	Reconnect string `json:"reconnect"` // no | before-late-reply | after-late-reply | before-close (the new connection announces the id while the old one is still open)
+	Reconnect string `json:"reconnect"`       // no | before-late-reply | after-late-reply | before-close (the new connection announces the id while the old one is still open)
 }
 
 func (k c18Case) name() string {
